@@ -165,9 +165,7 @@ def engine : Engine DState where
         let fr := (kv rest "from").bind String.toNat?
         let xr : XRec := { k := k, kind := a, from_ := fr, tStart := tS, tEnd := tE, hdr := parseHdr impl }
         -- the served body, as a function of nothing (the harness tells where the faithful server started)
-        let scanOf : Option ScanOut := match a, fr with
-          | .ok c t, some f => some (scanBytes ((bodyFrom d.scn.items f).take c) t)
-          | _, _ => none
+        let scanOf : Option ScanOut := scanOfX d.scn xr
         let (mon', viol) := monStep d.scn d.mon (.x xr)
         if k = 0 then
           -- the first body of the stream
@@ -185,14 +183,7 @@ def engine : Engine DState where
                 -- from the ground truth (this is what ties `noteEvent`/`parseInt64` to the measured delays)
                 let mAttempt := trailingTerr d.mon.exch + 1
                 let agree := delayWindow hint attempt == delayWindow (if mAttempt = 1 then lastHint d.scn d.mon.exch else 0) mAttempt
-                let att : Attempt := match a with
-                  | .terr => .terr
-                  | .st c => .resp c (fun _ => ⟨[], .clean⟩)
-                  | .ok _ _ =>
-                    match scanOf with
-                    | some so => .resp 200 (fun _ => so)
-                    | none => .resp 400 (fun _ => ⟨[], .clean⟩)    -- the scripted server refuses an unknown Last-Event-ID
-                (showHdr lastID ++ (if agree then "" else s!" model-delay-window({hint},{attempt})"), step d.scn.cfg run att)
+                (showHdr lastID ++ (if agree then "" else s!" model-delay-window({hint},{attempt})"), step d.scn.cfg run (attemptOfX d.scn xr))
             some ({ d with run := some run', mon := mon' }, { model := model, violated := viol.map Clause.text })
       match r with
       | some x => x
